@@ -1,0 +1,41 @@
+//go:build verif
+
+package pruningBuffer
+
+// Contracts for govc (/verif), property C09. Comment-only file: no executable code, not part of the default build.
+// The pruning buffer holds the prune / cancel-prune requests that arrive while pruning is blocked (snapshot in progress).
+// Add is lossless up to the configured size and DROPS the request when the buffer is full (stated, see specs/C09.json);
+// RemoveAll hands out every buffered request in arrival order and empties the buffer.
+
+/*@
+struct pruningBuffer
+  guarded_by mutOp: buffer
+  invariant bounded: len(buffer) <= size
+
+func NewPruningBuffer(pruningBufferLen uint32) (pb *pruningBuffer)
+  ensures  fresh(pb) && inv(pb)
+  ensures  empty: len(pb.buffer) == 0 && pb.size == pruningBufferLen
+  assigns  nothing
+
+func (pb *pruningBuffer) Add(rootHash []byte)
+  requires inv(pb)
+  ensures  inv(pb)
+  ensures  appended-when-room: old(len(pb.buffer)) < pb.size ==> len(pb.buffer) == old(len(pb.buffer)) + 1 && pb.buffer[old(len(pb.buffer))] == rootHash
+  ensures  dropped-when-full: old(len(pb.buffer)) == pb.size ==> len(pb.buffer) == old(len(pb.buffer))
+  ensures  earlier-requests-kept: forall k :: 0 <= k && k < old(len(pb.buffer)) ==> pb.buffer[k] == old(pb.buffer[k])
+  ensures  request-bytes-untouched: str(rootHash) == old(str(rootHash))
+  assigns  pb.buffer, elems(pb.buffer)
+
+func (pb *pruningBuffer) RemoveAll() (r [][]byte)
+  requires inv(pb)
+  ensures  inv(pb)
+  ensures  fresh(r)
+  ensures  lossless: len(r) == old(len(pb.buffer))
+  ensures  fifo: forall k :: 0 <= k && k < len(r) ==> r[k] == old(pb.buffer[k])
+  ensures  emptied: len(pb.buffer) == 0
+  assigns  pb.buffer
+
+func (pb *pruningBuffer) Len() (n int)
+  ensures  n == len(pb.buffer)
+  assigns  nothing
+@*/
